@@ -9,7 +9,50 @@ ENUMK = ["exec", "query", "sudo"]
 ID = r"[\w#]+"
 
 
+def find_handler_call(body):
+    """The call `contract.<method>(<ctx>, <args...>)` inside a (whitespace-free) body, wherever and however it is wrapped:
+    returns (method, [argument texts after the first]) or None when the body has no such call."""
+    m = re.search(r"contract\.(%s)\(" % ID, body)
+    if not m:
+        return None
+    i = m.end()
+    depth, cur, args = 1, "", []
+    while i < len(body) and depth:
+        ch = body[i]
+        if ch in "([{":
+            depth += 1
+        elif ch in ")]}":
+            depth -= 1
+            if depth == 0:
+                break
+        if ch == "," and depth == 1:
+            args.append(cur)
+            cur = ""
+        else:
+            cur += ch
+        i += 1
+    if cur:
+        args.append(cur)
+    if depth:
+        return None
+    return m.group(1), args[1:]
+
+
+def parse_binds(text):
+    """`a:x,b,` -> {a: x, b: b}"""
+    binds = {}
+    for x in text.split(","):
+        if x:
+            f, _, b = x.partition(":")
+            binds[f] = b or f
+    return binds
+
+
 def check_arms(res, pid, where, o, expected, src):
+    """Static reading of the generated dispatch functions.  Only what the property states is judged — which method a
+    variant's arm calls and which field reaches which parameter — and it is read shape-tolerantly (the call may be wrapped,
+    split over statements, use any binder names); bodies in which no call can be located are counted, not judged: the
+    compiled traces of E2 are what decides."""
     def bad(what, **kw):
         v = {"kind": "arms", "pid": pid, "program": src, "what": "%s: %s" % (pid, what)}
         v.update(kw)
@@ -34,56 +77,55 @@ def check_arms(res, pid, where, o, expected, src):
         if kind in ("instantiate", "migrate"):
             body = norm(f["body"])
             m = ms[0]
-            mm = re.search(r"letSelf\{((?:%s(?::%s)?,)*)\}=self;contract\.(%s)\(Into::into\(ctx\)((?:,%s)*),?\)\.map_err\(Into::into\)" % (ID, ID, ID, ID), body)
-            if not mm:
-                bad("unexpected struct dispatch body: %s" % f["body"])
+            sm = re.search(r"Self\{((?:%s(?::%s)?,)*)\}" % (ID, ID), body)
+            call = find_handler_call(body)
+            if not sm or not call:
+                res.parts["arms_unparsed"] = res.parts.get("arms_unparsed", 0) + 1
                 continue
-            binds = {}
-            for x in mm.group(1).split(","):
-                if x:
-                    fld, _, b = x.partition(":")
-                    binds[fld] = b or fld
-            passed = [x for x in mm.group(3).split(",") if x]
+            binds = parse_binds(sm.group(1))
+            callee, passed = call
             want = [a.name for a in m.args]
             shadow = sorted(set(binds.values()) & {"contract", "ctx", "self"})
             if shadow:
                 bad("%s dispatch binds a field to `%s`, shadowing its own parameter before the handler is called" % (tname, shadow), cls="shadow")
-            if mm.group(2) != m.name or sorted(binds) != sorted(want) or passed != [binds.get(x) for x in want]:
-                bad("%s dispatch calls %s(%s) with bindings %s; handler is %s(%s)" % (tname, mm.group(2), passed, binds, m.name, want), cls="struct_call")
+            if callee != m.name or sorted(binds) != sorted(want) or passed != [binds.get(x) for x in want]:
+                bad("%s dispatch calls %s(%s) with bindings %s; handler is %s(%s)" % (tname, callee, passed, binds, m.name, want), cls="struct_call")
             continue
         arms = [a for a in f.get("arms", []) if norm(a["on"]) == "self" and not norm(a["pat"]).startswith("_Phantom")]
         if len(arms) != len(ms):
             bad("%s dispatch has %d arms for %d handlers" % (tname, len(arms), len(ms)))
             continue
+        # arms are matched to handlers by the variant they destructure, not by position
+        by_variant = {}
+        for a in arms:
+            pm = re.match(r"^(?:Self::)?(%s)\{((?:%s(?::%s)?,)*)\}$" % (ID, ID, ID), norm(a["pat"]))
+            if pm:
+                by_variant[model.serde_snake(pm.group(1))] = (pm, a)
         seen_callees = []
-        for a, m in zip(arms, ms):
-            pat, body = norm(a["pat"]), norm(a["body"])
-            pm = re.match(r"^(%s)\{((?:%s(?::%s)?,)*)\}$" % (ID, ID, ID), pat)
-            if not pm:
-                bad("unexpected arm pattern `%s`" % a["pat"])
-                continue
-            # `field: binder` or the shorthand `field` (binder == field)
-            binds = {}
-            for x in pm.group(2).split(","):
-                if x:
-                    f, _, b = x.partition(":")
-                    binds[f] = b or f
+        for m in ms:
+            # an in-shape method name is the wire name of its variant
+            hit = by_variant.get(bare(m.name)) if (model.in_shape(m.name) and len(by_variant) == len(arms)) else None
+            if hit is None:
+                # fall back to the declaration position
+                a = arms[ms.index(m)]
+                pm = re.match(r"^(?:Self::)?(%s)\{((?:%s(?::%s)?,)*)\}$" % (ID, ID, ID), norm(a["pat"]))
+                if not pm:
+                    res.parts["arms_unparsed"] = res.parts.get("arms_unparsed", 0) + 1
+                    continue
+            else:
+                pm, a = hit
+            body = norm(a["body"])
+            binds = parse_binds(pm.group(2))
             shadow = sorted(set(binds.values()) & {"contract", "ctx", "self"})
             if shadow:
                 bad("arm for `%s` binds a field to `%s`, shadowing the dispatch function's own local" % (m.name, shadow), cls="shadow")
-            if kind == "query":
-                bm = re.match(r"^sylvia::cw_std::to_json_binary\(&contract\.(%s)\(Into::into\(ctx\)((?:,%s)*),?\)\?\)\.map_err\(Into::into\)$" % (ID, ID), body)
-            else:
-                bm = re.match(r"^contract\.(%s)\(Into::into\(ctx\)((?:,%s)*),?\)\.map_err\(Into::into\)$" % (ID, ID), body)
-            if not bm:
-                bad("unexpected arm body `%s`" % a["body"], cls="arm_body")
+            call = find_handler_call(body)
+            if not call:
+                res.parts["arms_unparsed"] = res.parts.get("arms_unparsed", 0) + 1
                 continue
-            callee = bm.group(1)
-            passed = [x for x in bm.group(2).split(",") if x]
+            callee, passed = call
             seen_callees.append(callee)
             want_fields = [x.name for x in m.args]
-            if model.serde_snake(pm.group(1)) != model.serde_snake(pm.group(1)):
-                pass
             if callee != m.name:
                 bad("arm for variant %s calls `%s`, the variant was generated from `%s`" % (pm.group(1), callee, m.name), cls="callee")
             if sorted(binds.keys()) != sorted(want_fields):
@@ -94,6 +136,8 @@ def check_arms(res, pid, where, o, expected, src):
                 bad("arm for `%s` passes %s, expected %s (fields %s in declaration order)" % (m.name, passed, want_passed, want_fields), cls="arg_order")
             if len(set(binds.values())) != len(binds):
                 bad("arm for `%s` binds two fields to one variable: %s" % (m.name, binds), cls="binds")
+            if kind == "query" and "to_json_binary" not in body:
+                bad("arm for query `%s` does not encode the handler's answer (no to_json_binary in %s)" % (m.name, a["body"]), cls="query_encoding")
         if len(set(seen_callees)) != len(seen_callees):
             bad("two arms of %s call the same handler: %s" % (tname, seen_callees), cls="callee")
 
